@@ -184,6 +184,9 @@ func (in *Interp) stmt(s Stmt, fr *frame) ctl {
 	switch n := s.(type) {
 	case *Let:
 		v := in.eval(n.Init, fr)
+		if n.T != nil && n.T.K != KRef {
+			v = deref(v) // `let v: T = r` with r: &T copies the value
+		}
 		fr.vars[n.Name] = &cell{v: v}
 	case *LetClosure:
 		if in.closures == nil {
@@ -611,6 +614,9 @@ func (in *Interp) call(f *Func, recv Expr, argv []Expr, fr *frame, errOut **stri
 	c := in.stmts(f.Body, cf)
 	rv, re := in.retVal, in.retErr
 	in.retVal, in.retErr = sv, se
+	if f.Ret != nil && f.Ret.K != KRef {
+		rv = deref(rv) // `return r` with r: &T in a function returning T yields the value
+	}
 	if c != ctlReturn && f.Ret != nil && f.Ret.K != KVoid {
 		panic(fellOff{f.Name})
 	}
